@@ -11,6 +11,7 @@ CONSTANTS
   WakeRule = "always"
   BottomRule = "l0limit"
   LevelLoop = "once"
+  RegisterRule = "first"
   MaxSteps = 9
   AllowClose = TRUE
 INVARIANTS TypeOK FlushScheduled CompactionScheduled ImmBounded NeverStuck
